@@ -61,9 +61,11 @@ def c01(tier, seed):
     run = Run("C01", tier, seed, "other", "bin/check C01 --tier " + tier)
     comp_layer(run, "C01", ("outp", "inp"), (1, 2), seed, tier)
     from . import system_layer as SL
-    SL.child_curr(run); SL.propagation(run); SL.solve_slice(run, "C01")
+    SL.child_curr(run); SL.propagation(run); SL.solve_slice(run, "C01"); SL.graph_helpers(run, "C01")
     table_layer(run, "solve-table-oracle", ["C01"], seed, _n(tier, 500, 20000))
     table_layer(run, "solve-table-oracle/tables+polarity", ["C01"], seed + 1, _n(tier, 300, 10000), dict(p_table=0.8, p_neg=0.5, p_phases=0.2))
+    from bounded import hist
+    run.add_bounded("solve table after edit histories (solve, edit, solve)", hist.random_history_family(seed, _n(tier, 200, 4000), _n(tier, 6, 10), ["C01", "C16"]))
     run.notes.append("composition (paper argument, not machine-checked): per-node laws + call-site obligations + _solve contract give the row-level statement within K*(vtol+itol)")
     return run.finish()
 
@@ -169,7 +171,7 @@ def _hist(run, props, seed, tier):
 def c14(tier, seed):
     run = Run("C14", tier, seed, "other", "bin/check C14 --tier " + tier)
     from . import system_layer as SL
-    SL.registry(run, "C14")
+    SL.registry(run, "C14"); SL.graph_helpers(run, "C14")
     _hist(run, ["C14"], seed, tier)
     return run.finish()
 
@@ -185,7 +187,7 @@ def c15(tier, seed):
 def c16(tier, seed):
     run = Run("C16", tier, seed, "other", "bin/check C16 --tier " + tier)
     from . import system_layer as SL
-    SL.registry(run, "C16"); SL.find_domain(run); SL.solve_slice(run, "C16")
+    SL.registry(run, "C16"); SL.find_domain(run); SL.solve_slice(run, "C16"); SL.graph_helpers(run, "C16")
     _hist(run, ["C16"], seed, tier)
     from bounded import families as BF
     run.add_bounded("construction orders of the same structure", BF.order_family(seed, _n(tier, 60, 2000), ["C16"]))
